@@ -16,6 +16,8 @@ import (
 	"fmt"
 	"strings"
 	"unicode/utf8"
+
+	"github.com/cockroachdb/redact"
 )
 
 func init() {
@@ -188,6 +190,61 @@ func execRoutes(e *env, op *Op, out *Outcome) {
 		fail("call-panicked", "safeformat", M.Panic+m0.Panic)
 	} else if want, got := normalize(m0.Out+S.Out+mStart+"|tail"+mEnd), normalize(M.Out); want != got {
 		fail("route-differs-from-S", "safeformat", fmt.Sprintf("Print on the SafePrinter inside SafeFormat after %q: got %q want %q", clip(m0.Out), clip(got), clip(want)))
+	}
+	e.yield(ySession)
+
+	// ---- the same under a verb with flags, width and precision: the nested
+	// printer starts with clean flags, so the argument list still prints as
+	// it does through Sprint (no prior content here: the method's own
+	// SafeInt/SafeFloat writes legitimately honour the outer flags)
+	for _, dv := range []string{"%08.3v", "%+12v", "%-9.2d"} {
+		fop := Op{K: "sprintf", F: Str(dv), A: []Val{{K: "safefmt", ID: 7005, P: []Step{prStep}}}}
+		FV := e.execOp(&fop)
+		count("safeformat-under-flagged-verb", "-")
+		if FV.Panic != "" {
+			fail("call-panicked", "safeformat-under-flagged-verb", FV.Panic)
+		} else if want, got := normalize(S.Out), normalize(FV.Out); want != got {
+			fail("route-differs-from-S", "safeformat-under-flagged-verb", fmt.Sprintf("Print on the SafePrinter inside a SafeFormat method reached through %s: got %q want %q", dv, clip(got), clip(want)))
+		}
+	}
+	e.yield(ySession)
+
+	// ---- the destination builder itself among the operands (sb.Print(args..., &sb)):
+	// the text is what Sprint yields for the same operands, a second builder
+	// with the same content standing for the destination
+	{
+		var o1, o2 Outcome
+		s1 := e.newBuilderSession(&o1)
+		for i := range op.Dst {
+			s1.step(&op.Dst[i])
+		}
+		content := s1.sb.RedactableString()
+		s2 := e.newBuilderSession(&o2)
+		for i := range op.Dst {
+			s2.step(&op.Dst[i])
+		}
+		func() {
+			defer func() {
+				if r := recover(); r != nil {
+					fail("call-panicked", "builder-self-operand", fmt.Sprint(r))
+				}
+			}()
+			var want string
+			if printf {
+				// a plain format that gives the builder operand a %v (under a
+				// bad verb it would be dumped by reflection, internals included)
+				pf := strings.Repeat("%v,", len(op.A)) + "|%v"
+				want = string(redact.Sprintf(pf, append(e.buildAll(op.A), s1.sb)...))
+				s2.sb.Printf(pf, append(e.buildAll(op.A), s2.sb)...)
+			} else {
+				want = string(redact.Sprint(append(e.buildAll(op.A), s1.sb)...))
+				s2.sb.Print(append(e.buildAll(op.A), s2.sb)...)
+			}
+			count("builder-self-operand", "-")
+			if w, got := normalize(string(content)+want), normalize(string(s2.sb.RedactableString())); w != got {
+				fail("route-differs-from-S", "builder-self-operand", fmt.Sprintf("builder holding %q printing itself among its operands: got %q want %q", clip(string(content)), clip(got), clip(w)))
+			}
+		}()
 	}
 	e.yield(ySession)
 
